@@ -71,6 +71,15 @@ def input_classes(src: str) -> set:
                 out.add("terminal_after_selectmany")
             if n.func.attr == "First":
                 out.add("first")
+                # a Where before this First whose predicate holds a partial operation (index, First, Max, Min)
+                c = n.func.value
+                while isinstance(c, ast.Call) and isinstance(c.func, ast.Attribute):
+                    if c.func.attr == "Where" and c.args and isinstance(c.args[0], ast.Lambda):
+                        for m in ast.walk(c.args[0].body):
+                            if (isinstance(m, ast.Subscript) and not isinstance(m.value, ast.Name)) or (
+                                    isinstance(m, ast.Call) and isinstance(m.func, ast.Attribute) and m.func.attr in ("First", "Max", "Min")):
+                                out.add("partial_filter_before_first")
+                    c = c.func.value
         if isinstance(n, ast.Tuple):
             for el in n.elts:
                 if isinstance(el, ast.Call) and isinstance(el.func, ast.Attribute) and el.func.attr == "First":
@@ -159,6 +168,8 @@ def run_case(model: core.Model, backend: str, uni: qgen.Universe, src: str, even
             r.diffs.append((i, "does-not-compile(C02)", f"generated code uses {val[1]} out of scope", [kind, val], ref))
         elif kind == "stuck":
             r.diffs.append((i, "not-executable", f"generated code is not executable C++ on this event: {val}", [kind, val], ref))
+        elif (ref[0] == "fault" and ref[1] == "div_zero" and kind != "fault") or (kind == "fault" and "div_zero" in str(val) and ref[0] != "fault"):
+            semrun.DIV_ZERO_SKIPPED[0] += 1  # outside the shared value domain (see semrun.compare_event)
         elif ref[0] == "fault" and kind != "fault":
             r.diffs.append((i, "silent-no-fault", f"query is undefined on this event ({ref[1]}) but the job wrote {len(val)} row(s) and did not fail", [kind, val], ref))
         elif ref[0] == "rows" and kind == "fault":
@@ -177,6 +188,8 @@ def violation_key(src: str, kind: str, ref) -> str:
         return "c04:terminal-after-selectmany"
     if "first_bound_in_tuple" in cls and kind == "silent-no-fault" and ref[0] == "fault" and ref[1] == "first_empty":
         return "c04:first-bound-then-guarded"
+    if "partial_filter_before_first" in cls and kind == "spurious-fault":
+        return "c04:first-keeps-filtering"
     return f"c04:{kind}"
 
 
